@@ -157,7 +157,7 @@ def rule_M(ctx):
             for combo in itertools.product(rel, repeat=n):
                 names = ['f%d' % k for k in range(n)]
                 # two observations: the case under test and an all-below one (a marker must not leak from one observation to the next)
-                cols = {nm: [kind(NAN if rel[c] is None else thresholds[k] + rel[c]), kind(thresholds[k] - 5.0)] for k, (nm, c) in enumerate(zip(names, combo))}
+                cols = {nm: [(float('nan') if kind is float else kind(NAN)) if rel[c] is None else kind(thresholds[k] + rel[c]), kind(thresholds[k] - 5.0)] for k, (nm, c) in enumerate(zip(names, combo))}
                 t = TrackS(2, cols)
                 try:
                     orders.make_func(f.node, fn)(**{tr: t, afs: list(names), afo: 'OUT', thr: list(thresholds), mode: mval})
